@@ -37,7 +37,11 @@ impl<'a> Gen<'a> {
         self.present.clear();
         self.removed.clear();
         let c = self.cap;
-        self.run(format!("R new {}", c));
+        if self.rng.chance(30) {
+            self.run(format!("R empty {}", c));
+        } else {
+            self.run(format!("R new {}", c));
+        }
     }
     pub fn some_key(&mut self) -> i64 {
         match self.rng.below(20) {
